@@ -172,10 +172,13 @@ async fn read_http_header(stream: &mut TcpStream) -> Result<(Vec<u8>, Vec<u8>)> 
             ));
         }
         buf.extend_from_slice(&tmp[..n]);
-        if buf.len() > MAX_HEADER_SIZE {
+        // The size limit applies to the header; body bytes that arrive in the same
+        // read do not count
+        let header_end = find_header_end(&buf);
+        if header_end.unwrap_or(buf.len()) > MAX_HEADER_SIZE {
             return Err(AnyTlsError::Protocol("HTTP header too large".to_string()));
         }
-        if let Some(end) = find_header_end(&buf) {
+        if let Some(end) = header_end {
             let header = buf[..end].to_vec();
             let remaining = buf[end..].to_vec();
             return Ok((header, remaining));
